@@ -47,6 +47,8 @@ type Profile struct {
 	SizeFlip       bool   // a sink symbol is loaded under a size limit in some nodes
 	EndAfterInput  bool   // end nodes of the shape HALT; INCMP t 1; HALT
 	FallMove       bool   // menu nodes that end in a MOVE behind their INCMP lines
+	LangLikeNames  bool   // now and then one node is named like a translation: its name ends in "_<code>" of a language the application has translations for
+	LongMenus      bool   // now and then a node has 14-30 more INCMP lines in front of its own (more than 128 bytes of code behind its HALT)
 	ReloadAfterMap bool   // now and then a mapped symbol is RELOADed behind its MAP, before the page is shown
 	BrowseSwap     bool   // now and then MPREV is written before MNEXT
 	PoolFlags      bool   // with many flags: CATCH/CROAK and external code draw from a small pool of indices (boundaries favoured), so that they meet
@@ -560,6 +562,14 @@ func Generate(t *tape.Tape, p Profile) *App {
 					inc = append(inc, Inst{Op: INCMP, A: "<", B: in.B})
 				}
 			}
+			if p.LongMenus && t.Chance(1, 6) {
+				nl := t.Range(14, 30)
+				var long []Inst
+				for j := 0; j < nl; j++ {
+					long = append(long, Inst{Op: INCMP, A: postTarget(i, browse), B: fmt.Sprintf("7%c", 'a'+j)})
+				}
+				inc = append(long, inc...)
+			}
 			extra := t.Weighted(4, 2, 1)
 			for j := 0; j < extra; j++ {
 				sel := genSelector(t, 10+j)
@@ -706,6 +716,34 @@ func Generate(t *tape.Tape, p Profile) *App {
 		}
 		a.Nodes = append(a.Nodes, c)
 		t.End()
+	}
+	if p.LangLikeNames && len(a.Langs) > 0 && len(a.Nodes) > 2 && t.Chance(1, 3) {
+		// a node called like the translation of something that does not exist: "nab_nor" where there is no "nab"
+		var cands []*Node
+		for _, n := range a.Nodes {
+			if n.Name != a.Root && n.Kind != KCatch {
+				cands = append(cands, n)
+			}
+		}
+		if len(cands) > 0 {
+			n := cands[t.Int(len(cands))]
+			old, nu := n.Name, n.Name+"_"+a.Langs[t.Int(len(a.Langs))]
+			n.Name = nu
+			for _, m := range a.Nodes {
+				for i := range m.Code {
+					switch m.Code[i].Op {
+					case MOVE, INCMP, CATCH:
+						if m.Code[i].A == old {
+							m.Code[i].A = nu
+						}
+					}
+				}
+				for lg, tpl := range m.Tpl {
+					tpl = strings.ReplaceAll(tpl, "@"+old+"|", "@"+nu+"|")
+					m.Tpl[lg] = strings.ReplaceAll(tpl, "@"+old+"~", "@"+nu+"~")
+				}
+			}
+		}
 	}
 	a.Index()
 	return a
